@@ -289,13 +289,36 @@ def rule_cutoff_tables(ctx):
     # abs / rel comparisons: both implementations keep values strictly above the threshold
     for fname in ("_trim_and_renorm_svd_result", "_compute_number_svals_to_keep_numba"):
         f = ctx.prog.func(DECOMP, fname)
-        src = src_of(f.node)
-        ok_abs = "> cutoff" in src
-        ok_rel = "> cutoff * s" in src
-        if ok_abs and ok_rel:
-            r.ok(f"{fname}[threshold]")
+        # structural: every comparison of a (scaled) cutoff with singular values keeps values STRICTLY above it
+        comps = []
+        for c in ast.walk(f.node):
+            if isinstance(c, ast.Compare) and len(c.ops) == 1:
+                l, rr = c.left, c.comparators[0]
+                lc = any(isinstance(x, ast.Name) and x.id == "cutoff" for x in ast.walk(l))
+                rc = any(isinstance(x, ast.Name) and x.id == "cutoff" for x in ast.walk(rr))
+                if lc == rc:
+                    continue
+                other = rr if lc else l
+                if const_value(other, "x") != "x":
+                    continue  # sentinel test (cutoff > 0.0), handled by guard-agree
+                op = type(c.ops[0])
+                if lc:  # cutoff OP values  ->  values FLIP(OP) cutoff
+                    op = {ast.Lt: ast.Gt, ast.LtE: ast.GtE, ast.Gt: ast.Lt, ast.GtE: ast.LtE}.get(op, op)
+                cside = l if lc else rr
+                direct = isinstance(cside, ast.Name) or (
+                    isinstance(cside, ast.BinOp) and isinstance(cside.op, ast.Mult)
+                    and any(isinstance(x, ast.Name) and x.id == "cutoff" for x in (cside.left, cside.right)))
+                if not direct:
+                    continue  # cumulative-sum modes compare a running sum with a target derived from the cutoff
+                scaled = isinstance(cside, ast.BinOp)
+                comps.append((op, scaled, src_of(c)))
+        strict = [c for c in comps if c[0] is ast.Gt]
+        loose = [c for c in comps if c[0] is not ast.Gt]
+        if strict and not loose and any(c[1] for c in strict) and any(not c[1] for c in strict):
+            r.ok(f"{fname}[threshold]", sample={"function": fname, "comparisons": [c[2] for c in strict]})
         else:
-            r.bad(Finding("cutoff-tables", fname, "abs/rel modes do not keep values strictly above the threshold",
+            r.bad(Finding("cutoff-tables", fname,
+                          f"abs/rel modes do not keep values strictly above the threshold (comparisons with the cutoff: {[c[2] for c in comps]})",
                           where=f"{m.relpath}:{f.lineno}", operand="threshold"))
     return r
 
